@@ -91,7 +91,8 @@ fn apply<M: BinaryMatrix>(m: &mut Option<M>, op: &Value, name: &str, mism: &mut 
                     None
                 }
             }
-            "tail" => {
+            "taild" if name != "dense" => None,
+            "tail" | "taild" => {
                 let (r, c) = (us(&op["r"]), us(&op["c"]));
                 let mut q = mx.query_non_zero_columns(r, c);
                 q.sort();
